@@ -1,6 +1,7 @@
 """E2 — block execution, fixpoint engine (path mode + join mode), calls."""
 import heapq
 
+import re
 from .absint import (I, Fl, Ag, En, Sq, Pt, Top, Md, UNIT, BOT, Bot, St, Ctx, Frame, Unsupported, Diverge, PathAbort,
                      INF, join_states, same_state, gc_state, map_value, iter_ints, rename_bulk)
 from .facts import CheckerError
@@ -334,7 +335,17 @@ class Engine(Interp):
             callee = self.prog.inst[to]
             if ctx.observers:
                 ctx.emit("call", frame=fr, bb=bi, callee=callee, args=args, st=st, tv=tv)
+            # a closure invoked as `f(x)` is a call of Fn*::call with the arguments packed in a tuple (rust-call ABI)
+            ctx._rust_call = False
+            if "{closure" in callee.name:
+                try:
+                    fk, fv_ = kind_of(tv["func"])
+                    fty = self.prog.ty(fv_["const_"]["ty"]).s if fk == "Constant" else ""
+                except Exception:
+                    fty = ""
+                ctx._rust_call = bool(re.search(r"as (std|core)::ops::(Fn|FnMut|FnOnce)<", fty))
             outs = self.call(st, fr, bi, callee, args, dest_ty)
+            ctx._rust_call = False
         res = []
         for ret, s2 in outs:
             if tv["target"] is None:
@@ -448,7 +459,9 @@ class Engine(Interp):
         ctx = self.ctx
         body = ctx.body(inst)
         # closures called through Fn* traits: spread the argument tuple
-        if (body.arg_count == 2 and len(args) == 2 and type(args[1]) is Ag and len(args[1].f) == 1 and "{closure" in inst.name
+        rust_call = getattr(ctx, "_rust_call", False)
+        ctx._rust_call = False
+        if (rust_call and body.arg_count == 2 and len(args) == 2 and type(args[1]) is Ag and len(args[1].f) == 1 and "{closure" in inst.name
                 and self.prog.ty(body.locals[2]["ty"]).tag != "Tuple"):
             # one-parameter closure called through Fn*::call: the argument arrives as a 1-tuple
             args = [args[0], args[1].f[0]]
@@ -462,7 +475,8 @@ class Engine(Interp):
         # memoisation for pure scalar functions
         mkey = None
         deep = bool(ctx.summary_fns and ctx.summary_fns(inst))
-        sig = None if (st.res or getattr(ctx, 'no_memo', 0)) else self.sig_of(st, args, deep)
+        # closures are not memoised: rules observe the calls made inside them (a hit would skip those events)
+        sig = None if (st.res or getattr(ctx, 'no_memo', 0) or "{closure" in inst.name) else self.sig_of(st, args, deep)
         if sig is not None:
             mkey = (inst.id, sig)
             hit = ctx.memo.get(mkey)
@@ -727,7 +741,7 @@ class Engine(Interp):
                 queued.discard(sk)
                 bi = sk[0]
                 iters += 1
-                if iters > 20000:
+                if iters > 400000:
                     raise Unsupported("fixpoint did not converge")
                 st = in_states[sk].copy()
                 try:
@@ -806,7 +820,7 @@ class Engine(Interp):
                         continue
                     done.add(sk)
                     guard += 1
-                    if guard > 5000:
+                    if guard > 200000:
                         raise Unsupported("descending pass too long")
                     bi = sk[0]
                     if sk in heads:
